@@ -37,7 +37,8 @@ META = {
                    "vermouth write_gro / TOPDirector.finalize are modelled by contract and validated by the runs."),
     'rule': ("cases = 1-3 generated molecule types (single/multi-atom residues, path/tree/ring) x 1-4 [ molecules ] entries with "
              "repeated names and counts 1-3 x option set {box, dens, structure, structure+box, structure+dens, box+grid} x seed; "
-             "non-trivial = >= 2 entries, >= 2 molecule instances of one type and a finished run; distinct by (topology text, options, seed)"),
+             "non-trivial = >= 2 entries, >= 2 molecule instances of one type and a finished run; distinct by (topology text, options, seed)"
+             "; directed / added families (waves 10-12): option combinations (-cycles, -lig, -start on one molecule); crowded boxes with -mi 2"),
 }
 
 PRELUDE = """From Coq Require Import ZArith String List Bool PrimFloat.
